@@ -20,13 +20,13 @@ func init() {
 			if tier == "thorough" {
 				return 3000
 			}
-			return 200
+			return 400
 		},
 		MinNT: func(tier string) int {
 			if tier == "thorough" {
 				return 1500
 			}
-			return 80
+			return 160
 		},
 		Run: runC15,
 		Assumptions: []string{
